@@ -16,8 +16,11 @@ import (
 	"strconv"
 	"strings"
 	"sync/atomic"
+	"syscall"
 
 	"golang.org/x/telemetry/internal/counter"
+	"golang.org/x/telemetry/internal/verifh/shim/vosy"
+	"golang.org/x/telemetry/internal/verifh/shim/vsched"
 	"golang.org/x/telemetry/internal/verifh/vh_layout/fmtgen"
 	. "golang.org/x/telemetry/internal/verifh/vhlib"
 )
@@ -127,6 +130,8 @@ type session struct {
 	names    []string
 	fileMode bool
 	frozen   bool // only operations that do not add records
+	faulting bool // a fault plan is installed: newCounter / Add / extend only
+	wantGrow bool // pick a name whose record does not fit into the file
 }
 
 func (s *session) disk() []byte {
@@ -187,7 +192,38 @@ func errTag(err error) string {
 
 // pickName: mostly new names, sometimes an existing one, sometimes one aimed
 // at the last units of the current page.
+// growName: a name whose record does not fit into what is left of the file
+// (so that newCounter has to extend it), "" when no single name can do that.
+func (s *session) growName() string {
+	limit, size := s.limitSize()
+	hl := uint32(len(fmtgen.Header(s.meta)))
+	start := (limit + 31) / 32 * 32
+	if limit == 0 {
+		start = (hl + 4 + 2048 + 31) / 32 * 32
+	}
+	rem := int(size) - int(start)
+	if rem > 4128+31 {
+		return ""
+	}
+	nl := rem - 31
+	if nl < 1 {
+		nl = 1 + rnd.Intn(40)
+	}
+	if nl > 4096 {
+		nl = 4096
+	}
+	return fmtgen.NameOfLen(rnd, nl)
+}
+
 func (s *session) pickName() string {
+	if s.wantGrow {
+		if n := s.growName(); n != "" {
+			out.Note("op-name-forcing-growth")
+			return n
+		}
+		out.Note("op-fill-big")
+		return fmtgen.NameOfLen(rnd, 3900+rnd.Intn(197))
+	}
 	if len(s.names) > 0 && (s.frozen || rnd.Chance(25)) {
 		out.Note("op-existing-name")
 		return Pick(rnd, s.names)
@@ -234,10 +270,43 @@ func (s *session) remember(name string) {
 	s.names = append(s.names, name)
 }
 
-// one operation; returns its wire fields
+// one operation, now and then with a fault plan for the file-system calls it
+// makes (they are made only when the file has to grow): call index k fails
+// with an errno.  Wire: "F" k before the operation's own fields.
 func (s *session) op() []string {
+	if s.fileMode || !rnd.Chance(18) {
+		s.wantGrow = !s.fileMode && !s.frozen && rnd.Chance(8)
+		f := s.plainOp()
+		s.wantGrow = false
+		return f
+	}
+	k := rnd.Intn(6)
+	errno := Pick(rnd, []syscall.Errno{syscall.ENOSPC, syscall.EIO, syscall.EFBIG, syscall.EDQUOT})
+	s.faulting = true
+	s.wantGrow = !s.frozen && rnd.Chance(75)
+	vosy.Reset(map[int]syscall.Errno{k: errno})
+	f := s.plainOp()
+	fired := len(vosy.Fired) > 0
+	vosy.Reset(nil)
+	s.faulting, s.wantGrow = false, false
+	out.Note("op-fault-planned")
+	if fired {
+		out.Note("op-fault-fired-call-" + strconv.Itoa(k))
+		// the handle may be behind the file now (growth done, remap failed): take a fresh one
+		s.close()
+		if !s.open() {
+			panic("cannot reopen after an injected fault")
+		}
+	}
+	return append([]string{"F", I(int64(k))}, f...)
+}
+
+func (s *session) plainOp() []string {
 	var f []string
 	k := rnd.Intn(100)
+	if s.faulting && k >= 90 {
+		k = rnd.Intn(90)
+	}
 	switch {
 	case s.fileMode && k < 90:
 		name := s.pickName()
@@ -467,6 +536,162 @@ func caseSpec() {
 	}
 }
 
+// ---------------------------------------------------------------- racing creation
+
+type raceOp struct {
+	add   bool
+	name  string
+	delta uint64
+}
+
+// runRace: W writers open the same file (initial contents init, nil = absent)
+// and perform their operations, as managed threads that park before every
+// file-system call.  The plan is a list of (global step, writer) preemptions;
+// otherwise the running writer continues until it is done.  Returns the
+// schedule actually executed, the per-writer results and the file.
+func runRace(meta string, init []byte, progs [][]raceOp, plan [][2]int) (sched []int, res [][]string, final []byte) {
+	dir, err := os.MkdirTemp(root, "r")
+	must(err)
+	defer os.RemoveAll(dir)
+	path := filepath.Join(dir, "c.v1.count")
+	if init != nil {
+		must(os.WriteFile(path, init, 0666))
+	}
+	res = make([][]string, len(progs))
+	s := vsched.New(false)
+	defer vsched.Stop()
+	for i := range progs {
+		i := i
+		s.Go(func() {
+			m, err := counter.VerifOpenMapped(path, meta)
+			if err != nil {
+				res[i] = []string{"openfail"}
+				return
+			}
+			r := []string{"open"}
+			for _, o := range progs[i] {
+				p, off, cur, err := m.NewCounter(o.name)
+				m = cur
+				r = append(r, errTag(err))
+				if err == nil {
+					r = append(r, I(off))
+					if o.add {
+						p.Add(o.delta)
+					}
+				}
+			}
+			res[i] = r
+			m.Close()
+		})
+	}
+	cur := 0
+	for g := 0; !s.AllDone() && g < 400; g++ {
+		for _, p := range plan {
+			if p[0] == g && p[1] < len(progs) && !s.Done(p[1]) {
+				cur = p[1]
+			}
+		}
+		if s.Done(cur) {
+			cur = s.Runnable()[0]
+		}
+		info := s.Step(cur)
+		if info.Panic != "" {
+			panic("writer panicked: " + info.Panic)
+		}
+		sched = append(sched, cur)
+	}
+	final, err = os.ReadFile(path)
+	must(err)
+	return
+}
+
+// caseRace: one scenario (metadata, initial file state, 2 or 3 writers with
+// short programs on names that stay within the first page) under every plan
+// with at most two preemptions (3 writers: a deterministic sample in the quick
+// tier); one case per distinct schedule.
+func caseRace(idx int) {
+	meta := fmtgen.Meta(rnd)
+	w := 2 + idx%2
+	var init []byte
+	switch rnd.Intn(5) {
+	case 0:
+		init = fmtgen.Header(meta) // a writer died after its first creation write
+		out.Note("race-init-header-only")
+	case 1:
+		init = []byte{}
+		out.Note("race-init-empty")
+	default:
+		out.Note("race-init-absent")
+	}
+	shared := fmtgen.NameOfLen(rnd, 1+rnd.Intn(20))
+	progs := make([][]raceOp, w)
+	for i := range progs {
+		for j, k := 0, 1+rnd.Intn(2); j < k; j++ {
+			name := fmtgen.NameOfLen(rnd, 1+rnd.Intn(60)) + strconv.Itoa(i)
+			if rnd.Chance(25) {
+				name = shared
+			}
+			progs[i] = append(progs[i], raceOp{add: rnd.Chance(70), name: name, delta: uint64(1 + rnd.Intn(1000))})
+		}
+	}
+	steps := 7 * w
+	var plans [][][2]int
+	plans = append(plans, nil)
+	for g := 1; g < steps; g++ {
+		for t := 0; t < w; t++ {
+			plans = append(plans, [][2]int{{g, t}})
+			for g2 := g + 1; g2 < steps; g2++ {
+				for t2 := 0; t2 < w; t2++ {
+					if t2 != t {
+						plans = append(plans, [][2]int{{g, t}, {g2, t2}})
+					}
+				}
+			}
+		}
+	}
+	limit := len(plans)
+	if w > 2 && os.Getenv("VERIF_TIER") != "thorough" {
+		limit = 400
+	}
+	seen := map[string]bool{}
+	for pi, plan := range plans {
+		if limit < len(plans) && pi > 40 && rnd.Intn(len(plans)) >= limit {
+			continue
+		}
+		sched, res, final := runRace(meta, init, progs, plan)
+		key := fmt.Sprint(sched)
+		if seen[key] {
+			continue
+		}
+		seen[key] = true
+		fields := []string{"race", HS(meta)}
+		if init == nil {
+			fields = append(fields, "absent", "h")
+		} else {
+			fields = append(fields, "present", H(init))
+		}
+		fields = append(fields, I(int64(w)))
+		for i := range progs {
+			fields = append(fields, I(int64(len(progs[i]))))
+			for _, o := range progs[i] {
+				fields = append(fields, B(o.add), HS(o.name), U(o.delta))
+			}
+		}
+		fields = append(fields, I(int64(len(sched))))
+		for _, t := range sched {
+			fields = append(fields, I(int64(t)))
+		}
+		for i := range progs {
+			fields = append(fields, I(int64(len(res[i]))))
+			fields = append(fields, res[i]...)
+		}
+		fields = append(fields, H(final))
+		out.Note("race-writers-" + strconv.Itoa(w))
+		out.Note("race-preemptions-" + strconv.Itoa(len(plan)))
+		out.Case(true, fields...)
+	}
+}
+
 func main() {
 	if len(os.Args) < 3 {
 		fmt.Fprintln(os.Stderr, "usage: vh_layout <cases file> <n>")
@@ -481,6 +706,16 @@ func main() {
 	defer os.RemoveAll(root)
 	if os.Getenv("VERIF_TIER") == "thorough" {
 		maxPages = 12
+	}
+	races := 2
+	if os.Getenv("VERIF_TIER") == "thorough" {
+		races = 12
+	}
+	if n < 50 {
+		races = 1
+	}
+	for i := 0; i < races; i++ {
+		caseRace(i)
 	}
 	for i := 0; i < n; i++ {
 		switch k := rnd.Intn(100); {
